@@ -13,7 +13,7 @@ pub struct Args(Vec<String>);
 impl Args {
     pub fn get(&self, k: &str) -> Option<&str> {
         let key = format!("--{k}");
-        self.0.iter().position(|a| *a == key).and_then(|i| self.0.get(i + 1)).map(|s| s.as_str())
+        self.0.iter().rposition(|a| *a == key).and_then(|i| self.0.get(i + 1)).map(|s| s.as_str())
     }
     pub fn num(&self, k: &str, d: u64) -> u64 {
         self.get(k).map(|v| v.parse().expect("number")).unwrap_or(d)
@@ -33,12 +33,13 @@ pub fn install_shim(a: &Args) {
         x => panic!("unknown shim mode {x}"),
     };
     shim::install(m);
+    MAX_TEXT_LEN.store(a.num("max-len", 5000) as usize, std::sync::atomic::Ordering::Relaxed);
     let refuse = a.num("refuse-over", 1 << 28);
     shim::set_refuse_over(refuse as usize);
 }
 
-pub fn cov_json(cov: &Cov) -> String {
-    let props = jarr((1..NPROPS).map(|p| {
+pub fn cov_json(cov: &Cov, only: &[usize], lite: bool) -> String {
+    let props = jarr((1..NPROPS).filter(|p| only.is_empty() || only.contains(p)).map(|p| {
         let pc = &cov.props[p];
         J::new()
             .n("prop", p as u64)
@@ -60,15 +61,21 @@ pub fn cov_json(cov: &Cov) -> String {
         .n("steps", cov.steps)
         .n("histories", cov.histories)
         .raw("props", props)
-        .raw("matrix", jmap_u64(cov.matrix.iter()))
+        .raw("matrix", if lite { "{}".to_string() } else {
+            let mut m: std::collections::BTreeMap<String, u64> = cov.matrix.clone();
+            for (_, k, v) in cov.matrix_ix.iter() {
+                *m.entry(k.clone()).or_insert(0) += *v;
+            }
+            jmap_u64(m.iter())
+        })
         .raw("monitors", monitors)
         .raw("counters", counters)
         .s("digest", &format!("{:016x}", cov.digest))
         .render()
 }
 
-fn emit_viol(engine: &str, v: &Viol, seed: u64, hist: u64, profile: &str, extra: &str, oplog: &[String]) {
-    let tail: Vec<String> = oplog.iter().rev().take(40).rev().map(|s| jstr(s)).collect();
+fn emit_viol(engine: &str, v: &Viol, seed: u64, hist: u64, profile: &str, extra: &str, oplog: &[ops::Op]) {
+    let tail: Vec<String> = oplog.iter().rev().take(40).rev().map(|s| jstr(&s.show())).collect();
     emit(
         &J::new()
             .s("t", "viol")
@@ -84,6 +91,10 @@ fn emit_viol(engine: &str, v: &Viol, seed: u64, hist: u64, profile: &str, extra:
             .raw("oplog_tail", jarr(tail))
             .render(),
     );
+}
+
+pub fn stat_props(a: &Args) -> Vec<usize> {
+    a.get("stat-props").map(|s| s.split(',').filter_map(|x| x.parse().ok()).collect()).unwrap_or_default()
 }
 
 fn engine_explore(a: &Args) {
@@ -124,7 +135,7 @@ fn engine_explore(a: &Args) {
             .n("seed", seed)
             .n("violations", nviol)
             .n("swallowed_hint_failures", ex.swallowed_ok)
-            .raw("cov", cov_json(&ex.cov))
+            .raw("cov", cov_json(&ex.cov, &stat_props(a), a.flag("announce")))
             .render(),
     );
 }
@@ -141,6 +152,7 @@ fn main() {
     }
     ops::statics();
     match argv[1].as_str() {
+        "noop" => {}
         "explore" => engine_explore(&a),
         x => {
             eprintln!("unknown engine {x}");
